@@ -313,9 +313,94 @@ func c05Scenarios() []*explore.Scenario {
 		c05Scenario("2x2", 2, 2, false, false),
 		c05Scenario("2x1-sync", 2, 1, false, true),
 		c05Scenario("2x2-abandon-sync", 2, 2, true, true),
+		c05BurstScenario(3),
+		c05BurstScenario(80),
 		c05WrapScenario(),
 	}
 }
+
+// c05BurstScenario: call A is read by the peer, which then stops reading; n
+// more callers issue calls that cannot be written (connection without
+// buffering: one write blocked, the others queued behind it); the peer answers
+// A before it reads on. A must return although nothing else has been read;
+// afterwards the peer reads and answers everything and every call returns.
+func c05BurstScenario(n int) *explore.Scenario {
+	return &explore.Scenario{
+		Name:     fmt.Sprintf("burst-%d/reply-while-unwritten", n),
+		Cache:    true,
+		MaxSteps: 400000,
+		Body: func() any {
+			st := newCliRun(true)
+			st.ncallers = n + 1
+			b := &burst{r: st, n: n}
+			vsched.Go("server", func() {
+				if !st.serverNegotiate() {
+					st.serverEnd = "negotiation failed"
+					return
+				}
+				a, ok := st.serverRead()
+				if !ok {
+					st.serverEnd = "no first request"
+					return
+				}
+				// read nothing until every other caller is on its way
+				vsched.WaitFor("server.hold", st.srvObj(), b.allEntered)
+				st.serverReply(a)
+				vsched.WaitFor("server.awaitA", st.srvObj(), b.aReturned)
+				for {
+					w, ok := st.serverRead()
+					if !ok {
+						break
+					}
+					st.serverReply(w)
+				}
+				st.srv.Close()
+				st.serverEnd = "ok"
+			})
+			if !st.connect() {
+				return st
+			}
+			for i := 0; i <= n; i++ {
+				res := &callResult{ID: i * 2}
+				st.calls = append(st.calls, res)
+				if i == 0 {
+					b.a = res
+				}
+				first := i == 0
+				vsched.Go(fmt.Sprintf("caller%d", i), func() {
+					if !first {
+						// the burst starts once the peer holds A
+						vsched.WaitFor("burst.start", st.srvObj(), b.aOnWire)
+						st.mu.Lock()
+						b.entered++
+						st.mu.Unlock()
+					}
+					st.call(context.Background(), res)
+					st.endCaller()
+					vsched.Yield("caller.end", st.srvObj())
+				})
+			}
+			return st
+		},
+		Check: c05Check,
+	}
+}
+
+type burst struct {
+	r       *cliRun
+	n       int
+	entered int
+	a       *callResult
+}
+
+//go:norace
+func (b *burst) allEntered() bool { return b.entered == b.n }
+
+//go:norace
+func (b *burst) aReturned() bool { return b.a != nil && b.a.Returned }
+
+//go:norace
+func (b *burst) aOnWire() bool { return len(b.r.wire) > 0 }
 
 // c05WrapScenario: one call that is never answered, then 66000 sequential
 // answered calls: the tag counter wraps around while a tag stays outstanding.
@@ -396,13 +481,21 @@ func c05WrapScenario() *explore.Scenario {
 
 func c05(c *core.Ctx) {
 	c.Budget(100*time.Second, 14*time.Minute)
-	c.SetRule("scenarios: 2-3 callers x 1-2 identifiable calls on a real CSession, one call optionally abandoned (its context cancelled at any point); scripted server that at each step reads the next request or answers any outstanding one (all reply permutations x all interleavings), sync and async connection; plus allocateTag checked as a function over all 65536 hints x occupancy families, plus one 66000-call execution with a never-answered tag (wrap). outcome = per-call classification + wire order")
+	c.SetRule("scenarios: 2-3 callers x 1-2 identifiable calls on a real CSession, one call optionally abandoned (its context cancelled at any point); burst scenarios: the peer reads one request, holds off reading while 3 / 80 further callers pile up behind a blocked write on a connection without buffering, answers the first call before reading on (it must return), then serves the rest; scripted server that at each step reads the next request or answers any outstanding one (all reply permutations x all interleavings), sync and async connection; plus allocateTag checked as a function over all 65536 hints x occupancy families, plus one 66000-call execution with a never-answered tag (wrap). outcome = per-call classification + wire order")
 	c.Assume("scheduling points at channel, select, mutex, once, sync.Map, context-cancel and conn operations; sequentially consistent interleavings only", "the race-freedom clause is covered by the race-mode run when available (see coverage.race_mode)")
 	// (i) the allocator as a function
 	c05Allocator(c)
 	// (ii) interleavings
 	scs := c05Scenarios()
-	inter := scs[:len(scs)-1]
+	var inter []*explore.Scenario
+	var big *explore.Scenario
+	for _, sc := range scs[:len(scs)-1] {
+		if strings.HasPrefix(sc.Name, "burst-80") {
+			big = sc // 85 tasks: the default schedule and its neighbours only
+			continue
+		}
+		inter = append(inter, sc)
+	}
 	var plans []Plan
 	if c.Quick() {
 		plans = both(inter, -1, 3, 0)
@@ -411,8 +504,10 @@ func c05(c *core.Ctx) {
 				plans = append(plans, Plan{Sc: sc, Max: 1})
 			}
 		}
+		plans = append(plans, Plan{Sc: big, Delay: true, Max: 1})
 	} else {
 		plans = both(inter, 2, 5, 0)
+		plans = append(plans, Plan{Sc: big, Delay: true, Max: 2})
 	}
 	runPlans(c, plans)
 	// race mode: the same harness bodies in race-detector workers
